@@ -76,4 +76,8 @@ theorem C05_frame_switches_are_the_sources :
     Gen.ConfigSrc.frameSkipZeroGuard = some Config.frameSkipZeroGuard ∧
     Gen.ConfigSrc.frameFallThrough = some Config.frameFallThrough := by decide
 
+/-- C18 (Properties/C18Stop.lean): the final pass of the I/O thread has the shape `stopFinal` folds over — for every
+    connection of a copy of `Node.connections`: `close_connection_socket(conn, …)`, `conn.close(…)`, unconditionally -/
+theorem C18_final_pass_is_the_sources : Gen.ConfigSrc.stopFinalPass = some true := by decide
+
 end DV.Node
